@@ -58,7 +58,8 @@ func (e *Expression) String() string {
 // If there are any syntax or semantic errors, this will return an
 // error indicating the reason for the compilation failure.
 func Compile(path string, options ...opts.CompileOption) (*Expression, error) {
-	options = append(options, compopts.Transform(func(e expr.Expression) expr.Expression {
+	// (appended to a copy: the variadic slice is the caller's own when it was passed with ...)
+	options = append(append([]opts.CompileOption(nil), options...), compopts.Transform(func(e expr.Expression) expr.Expression {
 		return storeLastExpression{e}
 	}))
 
